@@ -452,8 +452,21 @@ def run_cli_job(cs, tool, argv, net_script, sched_seed, preempt_permille, wall_s
     for m in ("ascmhl.cli.update", "ascmhl.cli.ascmhl", "ascmhl.cli.ascmhl_debug"):
         sys.modules.pop(m, None)
     threading.Thread = SimThread
-    threading.Lock = SimLock
-    threading.RLock = lambda: SimLock(reentrant=True)
+    # locks created by the code under test (module names starting with "ascmhl") take part in the simulation; everything
+    # else -- the interpreter's own Thread / Event / Condition objects, logging, click -- keeps real locks: those are
+    # touched by real threads outside the baton protocol (Thread.start() waits on an Event), and a simulated lock there
+    # corrupts the scheduler once in a few thousand runs (soak seeds 1000/1001: a real-time stall that did not replay)
+    def _lock_factory(reentrant):
+        def make():
+            caller = sys._getframe(1).f_globals.get("__name__", "")
+            if caller.startswith("ascmhl"):
+                return SimLock(reentrant=reentrant)
+            return RealRLock() if reentrant else RealLock()
+
+        return make
+
+    threading.Lock = _lock_factory(False)
+    threading.RLock = _lock_factory(True)
     t_start = sched.now()
     result = {"exit": None, "terminated": True, "virtual_hang": False}
     sys.settrace(_tracer)
